@@ -126,6 +126,10 @@ def frame_check(ip, case, entry, final, tag):
             if v.cid in allowed_cells or c0.term.s == c1.term.s:
                 continue
             ip.emit("frame", "frame dict %s%s" % (v.cid, tag), final, EQ(c0.term, c1.term))
+        elif type(c0).__name__ == "KeyMapCell":
+            if v.cid in allowed_cells or (c0.has.s == c1.has.s and c0.val.s == c1.val.s):
+                continue
+            ip.emit("frame", "frame dict of lists %s%s" % (v.cid, tag), final, AND(EQ(c0.has, c1.has), EQ(c0.val, c1.val)))
         elif isinstance(c0, IterCell):
             if v.cid in allowed_cells or c0.cursor.s == c1.cursor.s:
                 continue
@@ -204,6 +208,9 @@ def build_unit(contract, case, contracts, world):
         if case.generator and case.yields == "Any":
             # finitely many yields of values of any kind: the yielded values are kept as they are
             st.env["out"] = ip.new_cell(st, PyListCell([]))
+        elif case.generator and case.yields.strip().startswith("Tuple["):
+            from .histlib import struct_new          # tuples of a declared shape: one ghost list per component
+            st.env["out"] = ip.new_cell(st, struct_new(ip, st, case.yields, "out0", empty=True))
         elif case.generator:
             sort = ip.lst_sort(case.yields)
             empty = reg.new("out0", sort)
@@ -255,6 +262,14 @@ def check_normal_exit(ip, case, entry, st, res, selfv, cls_inv, contracts):
         env["$elst"] = st.env["$elst"]
     if "$fs" in st.env:
         env["$fs"] = st.env["$fs"]
+    env["$locals"] = Fun("locals", env=dict(st.env))      # for the spec form local(name): a local variable at the exit
+    if getattr(case, "result_ref", None) and isinstance(entry.env.get(case.result_ref[0]), Ref):
+        from .dicts import path_ref, same_ref
+        want, _root = path_ref(ip, entry_view(entry, st), dict(entry.env), case.result_ref, entry=entry)
+        g = same_ref(ip, st, res, want) if isinstance(res, Ref) else FALSE
+        if g is None:
+            raise Unsupported("result_ref: cannot compare %r with %r" % (res, want))
+        ip.emit("post", "result is the object at the declared key path (result_ref)", st, g)
     if case.result_alias is not None:
         ip.emit("post", "result is the parameter %s itself" % case.result_alias, st,
                 ip.py_is(st, res, entry.env[case.result_alias]) if isinstance(res, Ref) else FALSE)
